@@ -88,7 +88,8 @@ class Check(PropertyCheck):
                 jobs = [[(ms, d + (big if rng.random() < 0.6 else 0)) for ms, d in job] for job in jobs]
                 family += "+huge"
             lines = ["new", instance_line(jobs), "views", "dict", "taillard"]
-            return Scenario(lines, {"kind": kind, "family": family, "flexible": gen.is_flexible(jobs)})
+            return Scenario(lines, {"kind": kind, "family": family, "flexible": gen.is_flexible(jobs),
+                                    "reuse_ops": rng.random() < 0.125})
         if kind == "immut":
             family, jobs = gen.gen_instance(rng, rng.choice(["classic", "irregular", "recirc", "zero", "flexible"]),
                                             max_jobs=3, max_ops=3)
